@@ -29,18 +29,6 @@ Proof.
   intros Hin. apply memN_In in Hin. congruence.
 Qed.
 
-(* the worker-stage specification is what it says *)
-Theorem wp_start_ok_spec prev it u ob :
-  start_ok prev (OStart it u) ob = true <->
-  (ob_ret ob = 0%N \/ find_inst (ob_ret ob - 1) (ob_inst prev) = Some (2%N, 0%N)).
-Proof.
-  unfold start_ok. destruct (N.eqb (ob_ret ob) 0) eqn:E.
-  - apply N.eqb_eq in E. split; [intros _; left; exact E|reflexivity].
-  - apply N.eqb_neq in E. destruct (find_inst (ob_ret ob - 1) (ob_inst prev)) as [[st ib]|].
-    + rewrite andb_true_iff, !N.eqb_eq. split; [intros [-> ->]; right; reflexivity|intros [H|H]; [contradiction|injection H; auto]].
-    + split; [discriminate|intros [H|H]; [contradiction|discriminate]].
-Qed.
-
 (* ---------------- the transition system is not vacuous ---------------- *)
 Definition cfg0 : cfg := mkcfg 1000000000 1000000000 1000000000 1000000000 1000000000.
 Definition ent1 : ent := mkent 7 Locked 5 0.
